@@ -297,6 +297,15 @@ impl<K: KeyT> World<K> {
                     Caught::Ok(Err(e)) => err_name(e),
                     _ => "panic",
                 };
+                if let Caught::Ok(Err(e)) = &res {
+                    // the error says which limit was hit, consistently through every accessor
+                    let k = e.kind();
+                    let want = (matches!(k, lasso::LassoErrorKind::MemoryLimitReached), matches!(k, lasso::LassoErrorKind::KeySpaceExhaustion), matches!(k, lasso::LassoErrorKind::FailedAllocation));
+                    let got = (k.is_memory_limit(), k.is_keyspace_exhaustion(), k.is_failed_alloc());
+                    if want != got {
+                        self.fail("C07", "error-kind-predicates-disagree", format!("error kind {k:?}: (is_memory_limit, is_keyspace_exhaustion, is_failed_alloc) = {got:?}"));
+                    }
+                }
                 if present.is_some() {
                     self.fail("C02", "present-string-failed", format!("interning{via_tag} a present string failed ({kind})"));
                 }
